@@ -98,7 +98,22 @@ class ASTPrinter:
         return "$%s" % node.name.value
 
     def print_document(self, node: _ast.Document) -> str:
-        return _join(map(self, node.definitions), "\n\n") + "\n"
+        definitions = []
+        for index, definition in enumerate(node.definitions):
+            formatted = self(definition)
+            # The query shorthand is ambiguous after a type system definition,
+            # e.g. `type Foo` followed by `{ bar }` reads as a type with fields.
+            if (
+                index > 0
+                and isinstance(definition, _ast.OperationDefinition)
+                and formatted.startswith("{")
+                and not isinstance(
+                    node.definitions[index - 1], _ast.ExecutableDefinition
+                )
+            ):
+                formatted = "query " + formatted
+            definitions.append(formatted)
+        return _join(definitions, "\n\n") + "\n"
 
     def print_operation_definition(self, node: _ast.OperationDefinition) -> str:
         op = node.operation
